@@ -700,11 +700,15 @@ var _ = record.Record{}
 // Reorganisation ops of the C02 alphabet (after the write menu).
 var vReorgOps = []string{"F", "LC", "FC", "MO", "MF", "RO"}
 
+// vBurstOps are multi-write macro ops (each sub-write is acknowledged on its own).
+var vBurstOps = []string{"WB"}
+
 func vAllOps() []string {
 	ops := []string{}
 	for _, w := range vWriteMenu {
 		ops = append(ops, w.Name)
 	}
+	ops = append(ops, vBurstOps...)
 	return append(ops, vReorgOps...)
 }
 
@@ -720,6 +724,18 @@ func vApply(v *vShard, m vModel, op string, id int) error {
 		return nil
 	}
 	switch op {
+	case "WB":
+		// burst: 16 separately acknowledged single-row writes to one series, timestamps cycling t4,t3,t2,t1 - the
+		// series buffer of the memtable then holds more than 12 unsorted rows with repeated timestamps (the size
+		// at which an unstable sort stops behaving like a stable one)
+		for k := 0; k < 16; k++ {
+			pts := []vPoint{{vKey{"m", "a", vT(4 - k%4)}, map[string]vVal{"f": vFloat(id*1000 + k), "i": vInt(id*1000 + k)}}}
+			if err := v.Write(pts); err != nil {
+				return err
+			}
+			m.ApplyBatch(pts)
+		}
+		return nil
 	case "F":
 		v.Flush()
 	case "LC":
